@@ -148,14 +148,19 @@ static inline v16u32 llvm_x86_avx512_mask_cvttps2dq_512(v16f32 a, v16u32 src, u1
 static inline v16u32 llvm_x86_avx512_mask_cvtps2dq_512(v16f32 a, v16u32 src, u16 k, u32 rc) {
   v16u32 r; for (int i = 0; i < 16; ++i) r.e[i] = ((k >> i) & 1) ? LL_CVTR32_f32(a.e[i]) : src.e[i]; return r; }
 #endif
-/* VSCALEFPS/PD: a * 2^floor(b) (special cases per SDM are not modelled: result non-deterministic unless b is a finite integer and the result is normal) */
+/* VSCALEFPS/PD: a * 2^floor(b), rounded once.  Modelled for the current rounding direction (rc == 4) when b is a finite integer in the
+ * normal exponent range: the product of a and the exactly representable power of two (one IEEE multiplication; gradual underflow and
+ * overflow of the result included).  Every other case (static rounding override, b outside the range, special cases per SDM) is not
+ * modelled: the result is non-deterministic. */
 #ifdef NEED_llvm_x86_avx512_mask_scalef_ps_512
 static inline v16f32 llvm_x86_avx512_mask_scalef_ps_512(v16f32 a, v16f32 b, v16f32 src, u16 k, u32 rc) {
-  v16f32 r; for (int i = 0; i < 16; ++i) r.e[i] = ((k >> i) & 1) ? nondet_f32() : src.e[i]; return r; }
+  v16f32 r; for (int i = 0; i < 16; ++i) { f32 e = b.e[i]; _Bool ok = rc == 4 && e >= -126.0f && e <= 127.0f && e == (f32)(s32)e;
+    r.e[i] = ((k >> i) & 1) ? (ok ? FMUL_f32(a.e[i], U2F32((u32)((s32)e + 127) << 23)) : nondet_f32()) : src.e[i]; } return r; }
 #endif
 #ifdef NEED_llvm_x86_avx512_mask_scalef_pd_512
 static inline v8f64 llvm_x86_avx512_mask_scalef_pd_512(v8f64 a, v8f64 b, v8f64 src, u8 k, u32 rc) {
-  v8f64 r; for (int i = 0; i < 8; ++i) r.e[i] = ((k >> i) & 1) ? nondet_f64() : src.e[i]; return r; }
+  v8f64 r; for (int i = 0; i < 8; ++i) { f64 e = b.e[i]; _Bool ok = rc == 4 && e >= -1022.0 && e <= 1023.0 && e == (f64)(s32)e;
+    r.e[i] = ((k >> i) & 1) ? (ok ? FMUL_f64(a.e[i], U2F64((u64)((s64)(s32)e + 1023) << 52)) : nondet_f64()) : src.e[i]; } return r; }
 #endif
 /* AVX-512 truncating conversions; NaN / out of range give the integer indefinite value (all ones for unsigned, MIN for signed) */
 #define LL_CVTTU32(x) (((x) == (x) && (x) > -1.0 && (x) < 4294967296.0) ? (u32)(x) : (u32)0xffffffffu)
